@@ -102,7 +102,7 @@ pub const BLIND_FLAGS: [u32; 14] = [
     0xffff_ffff,
     0x201,
 ];
-pub const BLIND_REPLIES: u64 = 14;
+pub const BLIND_REPLIES: u64 = 15;
 
 /// replies that need no secret: what is visible on the wire plus the certificate's key
 fn blind_reply(ctx: &BlindCtx, rv: u64, r: &mut Rng) -> Vec<u8> {
@@ -144,6 +144,35 @@ fn blind_reply(ctx: &BlindCtx, rv: u64, r: &mut Rng) -> Vec<u8> {
             v
         }
         12 => cat(&[0xffu8; 16], &k1),
+        // an attacker who cannot know the session key can still try the few keys a careless generator would produce: the
+        // client's own token is the certificate key sealed as its first message, so a guess is confirmed offline; with
+        // the right guess the reply is the key + 1 correctly sealed (16 equal bytes, 8 equal bytes twice, a counter)
+        14 => {
+            let mut found: Option<[u8; 16]> = None;
+            'search: for b in 0..=255u8 {
+                let mut cands = vec![[b; 16]];
+                let mut half = [b; 16];
+                for x in half[8..].iter_mut() {
+                    *x = b.wrapping_add(1);
+                }
+                cands.push(half);
+                let mut ramp = [0u8; 16];
+                for (i, x) in ramp.iter_mut().enumerate() {
+                    *x = b.wrapping_add(i as u8);
+                }
+                cands.push(ramp);
+                for key in cands {
+                    if Direction::new(&key, true).wrap(k) == *ct {
+                        found = Some(key);
+                        break 'search;
+                    }
+                }
+            }
+            match found {
+                Some(key) => Direction::new(&key, false).wrap(&k1),
+                None => cat(&dummy, &k1),
+            }
+        }
         _ => cat(&dummy, &cat(&k1, &[0])),
     };
     ts(ctx.ts_version, pka)
